@@ -97,6 +97,10 @@ class Enc:
         if b[0] == "phi":
             c = self.truth(b[1])
             return f_or([f_and([c, self.cmp(("cmp", op, a, b[2]))]), f_and([f_not(c), self.cmp(("cmp", op, a, b[3]))])])
+        if op in ("Is", "Eq"):
+            for x, y in ((a, b), (b, a)):
+                if x[0] == "call" and x[1] == "type" and len(x[2]) == 1 and y[0] in ("builtin", "classref", "global"):
+                    return self.truth(("isinstance", x[2][0], (y[1].rsplit(".", 1)[-1],)))  # exact type test (subclasses of list / str are not in play)
         if op == "Is":
             if b == NONE_T and a[0] == "mcall" and a[2] == "get" and len(a[3]) == 1:
                 return f_not(self.cmp(("cmp", "In", a[3][0], a[1])))  # values of the mappings looked at here are never None
